@@ -341,6 +341,11 @@ pub fn localise(e: &E, bad: &mut dyn FnMut(&E) -> bool) -> String {
     let mut best: Option<(usize, String)> = None;
     let mut nodes: Vec<&E> = Vec::new();
     grammar::walk(e, &mut |n| nodes.push(n));
+    // localising re-evaluates every subexpression: quadratic in the size of the tree, so very large trees (the long
+    // forms) are reported as a whole
+    if nodes.len() > 600 {
+        return "whole".into();
+    }
     // smallest first
     nodes.sort_by_key(|n| grammar::size(n));
     for n in nodes {
